@@ -40,7 +40,7 @@ func (e *execState) enumBankFail(bi int, blk *Block, txs [][]byte, prev *Snap) {
 		}
 		f.ResetRec()
 		for i := range blk.Pre {
-			_ = e.applyOpImpl(f, &blk.Pre[i])
+			_ = e.applyOpImpl(f, i, &blk.Pre[i])
 		}
 		if k >= 0 {
 			f.Rec.inj.BankPhase, f.Rec.inj.BankK = "begin", k
